@@ -55,6 +55,22 @@ def selfvalidate(rep, pid):
     for r in bad:
         rep.error(f"rule self-validation: variant '{r['name']}' expected {r['expect']}, got {r['got']}")
     print(f"[{pid}] self-validation: {len(res)} variants, {len(bad)} wrong")
+    # independently seeded breaking changes kept under /verif/seeded (produced by sub-agents that saw only the property text)
+    import glob
+    from .report import VERIF
+    seeds = sorted(glob.glob(os.path.join(VERIF, "seeded", f"{pid}-*", "")))
+    if seeds:
+        with cf.ThreadPoolExecutor(min(16, os.cpu_count() or 4)) as ex:
+            sres = list(ex.map(selftest.run_seed, seeds))
+        rep.analysed["seeded_changes"] = len(sres)
+        rep.analysed["seeded_changes_detected"] = sum(1 for r in sres if r["ok"])
+        rep.analysed["seeded_changes_stale"] = sum(1 for r in sres if r["ok"] is None)
+        for r in sres:
+            if r["ok"] is False:
+                rep.error(f"seeded change {r['name']} is not detected by the check of its property ({r['got']})")
+            elif r["ok"] is None:
+                rep.note(f"seeded change {r['name']}: {r['got']}")
+        print(f"[{pid}] seeded changes: {len(sres)}, detected {rep.analysed['seeded_changes_detected']}, stale {rep.analysed['seeded_changes_stale']}")
 
 
 def main(argv=None):
